@@ -101,8 +101,11 @@ class Config(object):
         cyc = []
 
         def bind(mws, url, resources, ep, rn, label):
+            # first bind of a Route object: `route` IS the unbound route (no _execute, no bound_apps yet)
+            unbound = NS(endpoint=ep, render=rn, middlewares=[m for m in mws if m not in self.app_mws])
             env = {'self': NS(converters=AbstractDict(url), resources=AbstractDict(resources), middlewares=tuple(mws)),
-                   'unbound_route': NS(endpoint=ep), 'render': rn}
+                   'unbound_route': unbound, 'route': unbound, 'render': rn, 'app_mws': list(self.app_mws),
+                   'app': NS(middlewares=list(self.app_mws), resources=AbstractDict(self.app_res))}
             it.run_fragment(R.BoundRoute.__init__, ['src_provides_map', 'check_middlewares', 'provided', '_execute'], env)
             c = self._cyclic(mws, ep)
             cyc.append(c)
@@ -323,16 +326,19 @@ def build_app(cfg, seed=0, record=None, beh=None):
     mw_objs = {}
     for m in cfg['mws']:
         attrs = {'provides': tuple(m['provides']), 'endpoint_provides': tuple(m['endpoint_provides']),
-                 'render_provides': tuple(m['render_provides'])}
+                 'render_provides': tuple(m['render_provides']), 'sfx': ''}
         for phase, prov in (('request', 'provides'), ('endpoint', 'endpoint_provides'), ('render', 'render_provides')):
             if m[phase]:
+                # the provided values carry the INSTANCE's suffix (class default ''): a second instance of the same
+                # middleware class (e.g. the one of an embedding application) is distinguishable from this one
                 if rnd.random() < 0.5:
-                    kw = ', '.join('%s=%r' % (n, 'PROVIDED:%s:%s' % (m[phase], n)) for n in m[prov])
+                    kw = ', '.join('%s=%r + self.sfx' % (n, 'PROVIDED:%s:%s' % (m[phase], n)) for n in m[prov])
                 else:       # positional call in the declared order of the provides tuple
-                    kw = ', '.join('%r' % ('PROVIDED:%s:%s' % (m[phase], n),) for n in m[prov])
+                    kw = ', '.join('%r + self.sfx' % ('PROVIDED:%s:%s' % (m[phase], n),) for n in m[prov])
                 attrs[phase] = define(mw_src(m[phase], cfg['funcs'][m[phase]], kw), m[phase])
-        mw_objs[m['name']] = type('MW_' + m['name'], (Middleware,), attrs)()
-    kinds = ['function', 'lambda', 'method', 'callable_object', 'staticmethod', 'classmethod', 'decorated']
+        # distinct classes that all share ONE __name__: uniqueness is about the type, not about its name
+        mw_objs[m['name']] = type('MW', (Middleware,), attrs)()
+    kinds = ['function', 'lambda', 'method', 'callable_object', 'staticmethod', 'classmethod', 'decorated', 'wraps_late']
     epk = kinds[rnd.randrange(len(kinds))]
     rnk = kinds[rnd.randrange(len(kinds))]
 
@@ -358,6 +364,16 @@ def build_app(cfg, seed=0, record=None, beh=None):
         if kind == 'staticmethod':
             cls = type('HolderS', (object,), {'m': staticmethod(f)})
             return cls.m
+        if kind == 'wraps_late':
+            # functools.wraps around ANOTHER function (own signature: request only) that has already been bound and
+            # served by an unrelated application: whatever clastic remembers about that function must not leak
+            # into the analysis of the wrapper (wraps copies __dict__ and sets __wrapped__)
+            import functools
+            def earlier(request):
+                return Response('earlier')
+            from werkzeug.test import Client as _Client
+            _Client(Application([('/', earlier)]), Response).get('/')
+            return functools.wraps(earlier)(f)
         if kind == 'decorated':
             @clastic_decorator
             def deco(g):
